@@ -321,10 +321,11 @@ def misuse_and_wait_rules(rep, fns):
                         "lock() stays blocked although the mutex is free" % short10)
                 continue
 
-            def seen_owned(blk, raw):
+            def seen_owned(blk, raw, fn10=fn10):
                 if blk.cond is None:
                     return False
-                a, pos = cond_atoms(blk.cond)
+                from engine.kinds import expand_locals as _xl10
+                a, pos = cond_atoms(_xl10(fn10, blk.cond))       # 'bool const free = owner_id_ == invalid; if (free)' reads like the direct test
                 if "owner_id_" not in a or "invalid_thread_id" not in a:
                     return False
                 eq = "==" in a
